@@ -56,6 +56,9 @@ CHECKS = {
  "C17": ("fault_enumeration", "scripted hostile/failing peers around a real Proxy in one-case child processes; crash = violation; delivery-progress oracle at final states; table/callback accessors; goroutine-leak check after context cancellation placed after every step",
          "Spoofed / empty / absent sources never forwarded and never fatal; envelope-by-envelope traffic between two healthy peers keeps arriving while a third peer is a stuck writer, failing reader, failing writer, undialable or slow to dial; failed connections are reported and removed without touching a newer connection under the same name (re-attach before/after the failure); after cancelling the context at each step Serve has returned and no Proxy/proxyClient goroutine is left at the final state.",
          "Cancellation positions are per scripted step; goroutine attribution by stack frames; all harness transports honour contexts.", "DESIGN.md 2/C17"),
+ "C18": ("fault_enumeration", "scripted shared transport around a real Demux: per-key sequence oracle on unique ids, announcement count, shared-writer equality; Cancel/Stop injected after each step and, by rendezvous hook, exactly between lookup and hand-off, concurrent with readers and a hammering writer; child-process crash attribution; final-state termination oracle; RPC workloads through fan-in + Demux + Serve",
+         "Per key the logical connection reads exactly the fed subsequence in order, is announced once per creation, and every envelope written on it reaches the shared transport unchanged exactly once; Cancel(key) and Stop at every step (also inside the hand-off window, also under a concurrent writer) must neither crash the process nor leave a Read/Write/Run blocked at the final state; C01/C02 workloads through several logical clients and one Server must pass their own oracles.",
+         "Consumers always drain (a consumer that never reads blocks Run by design, except in the directed Stop case); envelopes in flight at a Cancel may be lost with the cancelled connection.", "DESIGN.md 2/C18"),
 }
 NOT_YET = "check not built yet in this round (runtime-monitoring design in DESIGN.md section 2); will be claimed once its monitor exists"
 
